@@ -7,4 +7,4 @@ mkdir -p "$OUT"
 for p in "$@"; do
   n="$(echo "$p" | sed -e 's#.*/seeded/##' -e 's#.*/mutants/##' -e 's#.*/benign/##' -e 's#/patch.diff##' -e 's#/#_#g')"
   echo "$p $OUT/$n.txt"
-done | xargs -P 4 -n 2 sh -c '"'"$HERE"'/bin/allchecks_on_patch.sh" "$0" > "$1" 2>&1'
+done | xargs -P ${SWEEP_P:-4} -n 2 sh -c '"'"$HERE"'/bin/allchecks_on_patch.sh" "$0" > "$1" 2>&1'
